@@ -59,7 +59,7 @@ def run(ctx: Ctx) -> Outcome:
     if ctx.replay:
         return rtcheck.replay_outcome('C14', ctx, also=('C07',))
     scs = scenarios(ctx)
-    model_cov, notes = {}, []
+    model_cov, notes = rtmodel.shutdown_model(ctx), []
     # real processes, real sockets, SIGKILL of a worker / the manager at a random moment after the submit
     import random as _r
     rr = _r.Random(ctx.seed + 77)
@@ -70,7 +70,10 @@ def run(ctx: Ctx) -> Outcome:
                      'crash': [['worker', 'worker', 'manager'][i % 3], round(rr.uniform(0.0, 0.25), 3)], 'probe': False})
     real_traces = rtcheck.run_real_scenarios(real, ctx)
     model_cov['real_process_crash_runs'] = len(real_traces)
-    out = rtcheck.validate('C14', scs, ctx, also=('C07',), extra_cov=model_cov, extra_traces=real_traces)
+    out = rtcheck.validate('C14', scs, ctx, also=('C07',), extra_cov=model_cov, extra_traces=real_traces, keep_items=True)
+    cov2, notes2 = rtmodel.shutdown_conformance(ctx, out.items)
+    out.coverage.update(cov2)
+    notes += notes2
     out.notes += notes
     # fault_enumeration evidence keys
     crashed = sum(1 for s in scs if s.get('crash'))
